@@ -292,6 +292,12 @@ def run(E: Engine, rep: Report, tier: str) -> dict:
                 continue
             n_dmm += 1
             got = _arg9b(l, 1, "detuning_map")
+            # ... and for a channel that is scheduled, "its" map is the one stored with THAT channel's schedule,
+            # `self._schedule[channel].detuning_map`: the same DMM configured twice (dmm_0, dmm_0_1) has two maps
+            sched_maps = [t for t in _sym.subterms(m_["Q_map"]) if t[0] == "attr" and t[2] == "detuning_map" and t[1][0] == "idx" and t[1][1] == ("attr", ("name", "self"), "_schedule")]
+            for t in sched_maps:
+                rep.check(t[1][2] == ("name", "channel"), "PASS", "Sequence._validate_and_adjust_pulse|dmm-map-of-the-addressed-channel", "the map is read from self._schedule[channel]",
+                          f"the detuning map of a scheduled DMM is read from `self._schedule[{_sh9b(t[1][2], 40)}]` instead of `self._schedule[channel]`: a DMM configured twice (dmm_0 and dmm_0_1, with different maps) has its pulses on dmm_0_1 validated against the map of dmm_0, so detunings below the bottom limits of the addressed map are accepted", E.where(vap, l.node))
             rep.check(got == m_["Q_map"], "PASS", "Sequence._validate_and_adjust_pulse|dmm-pulse-validated-against-its-map", "validate_pulse(pulse, <the DMM's detuning map>)",
                       f"on the DMM branch validate_pulse is called with detuning_map = `{_sh9b(got, 80) if got is not None else 'nothing'}`: the bottom-detuning limits are then checked against the default one-trap map instead of the map configured on this DMM", E.where(vap, l.node))
     if n_dmm < 1:
